@@ -238,9 +238,14 @@ def flag_tag(d, x, eft_slack):
         return 'C15/injected-delay-shortened-task'
     t.task_status = TaskStatus.FINISHED
     sch = Scheduler(env, None, None, None)
-    plan = WorkflowPlan('A', 0, 10, [t], [t.id], WorkflowStatus.SCHEDULED, 1, None)
+    # a second task of the same plan, on time and with slack, finished in the same pass and listed AFTER the delayed one,
+    # and a third one still to run
+    t2 = Task('A_0_1', 0, 100, 'm1', [], 0, 0, {}, None)
+    t2.ast, t2.aft, t2.task_status = 0, 1, TaskStatus.FINISHED
+    t3 = Task('A_0_2', 0, 100, 'm1', [], 0, 0, {}, None)
+    plan = WorkflowPlan('A', 0, 10, [t, t2, t3], [t.id, t2.id, t3.id], WorkflowStatus.SCHEDULED, 1, None)
     rest = sch._update_current_plan(plan)
-    if rest:
+    if [r.id for r in rest] != [t3.id]:
         return 'C15/finished-task-kept-in-plan'
     if x > 0 and sch.schedule_status is not ScheduleStatus.DELAYED:
         return 'C15/schedule-not-reported-delayed'
